@@ -22,6 +22,7 @@ def rule_prov_convert(crate):
     f = crate.file_of(ct)
     pids = param_ids(ct)
     tgt = pids.get("target_unit")
+    self_id = pids.get("self")
     if tgt is None:
         out.error("anchor missing: parameter `target_unit` of Quantity::convert_to")
         return out
@@ -32,16 +33,33 @@ def rule_prov_convert(crate):
             inner = peel(n["args"][0])
             cf, cl = crate.loc(ct, n)
             key = "convert_to:Ok#%d" % n_ok
+            unit_arg = None
+            problem = None
             if inner.get("k") == "Call" and (callee(inner) or "").endswith("Quantity::new") and len(inner["args"]) == 2:
                 unit_arg = inner["args"][1]
+            elif inner.get("k") == "Struct" and inner.get("adt") == Q:
+                flds = dict((nm, e) for nm, e in inner["fields"])
+                unit_arg = flds.get("unit")
+                if inner.get("base") is not None:
+                    problem = "the result is built with struct-update syntax from another quantity (`..%s`): display flags of the source (conversion_target, can_simplify) leak into the converted value" % ("self" if self_id in derives(inner["base"], ct, {self_id}) else "other")
+                else:
+                    ctv = flds.get("conversion_target")
+                    cs = flds.get("can_simplify")
+                    if ctv is None or (ctor_variant(ctv) or ("", ""))[1] != "None":
+                        problem = "the result does not start with `conversion_target: None`"
+                    elif cs is None or peel(cs).get("lit", {}).get("v") is not True:
+                        problem = "the result does not start with `can_simplify: true`"
+            if unit_arg is None:
+                out.violation(key, cf, cl, "a success return of convert_to does not construct a fresh Quantity in the target unit")
+            elif problem:
+                out.violation(key, cf, cl, "a success return of convert_to: " + problem)
+            else:
                 p = derives(unit_arg, ct, set(pids.values()))
                 if p == {tgt}:
-                    out.ok(key, cf, cl, "result is constructed with a unit derived from `target_unit` only")
+                    out.ok(key, cf, cl, "result is a fresh Quantity whose unit derives from `target_unit` only")
                 else:
                     names = [k for k, v in pids.items() if v in p]
                     out.violation(key, cf, cl, "a success return of convert_to constructs its result with a unit derived from %s instead of `target_unit`" % (names or "a constant"))
-            else:
-                out.violation(key, cf, cl, "a success return of convert_to is not `Quantity::new(value, <target unit>)`")
             n_ok += 1
     if n_ok == 0:
         out.error("convert_to: no Ok(..) return found")
